@@ -54,7 +54,8 @@ func (e *Event) String() string {
 
 // OpRec records the execution of one program operation.
 type OpRec struct {
-	Task   int // harness task index (-1 prelude/epilogue = main)
+	Task   int // harness task index (-1 prelude, -2 epilogue)
+	Sim    int // simulator task id of the executing goroutine
 	Idx    int
 	Op     *Op
 	Inv    int // global sequence at invoke
